@@ -178,7 +178,7 @@ theorem derived_absent_iff (ko : Bool) (t : Ty) (a b : Val)
     (ha : (relKind (.recMap ko t)).wt a) (hb : (relKind (.recMap ko t)).wt b) :
     (semKind (.recMap ko t)).diff a b = none ↔
       (∀ k, (kget (asRMap a) k).isSome = (kget (asRMap b) k).isSome) ∧
-      (ko = false → ∀ k pv cv, kget (asRMap a) k = some pv → kget (asRMap b) k = some cv → pv = cv) := by
+      (ko = false → ∀ k pv cv, kget (asRMap a) k = some pv → kget (asRMap b) k = some cv → veq pv cv = true) := by
   have := (spec_kind (.recMap ko t)).none_iff a b ha hb
   simpa [relKind, recMapRel] using this
 
